@@ -79,7 +79,33 @@ def c07(ck):
         ck.replay_stage("paths4", "MC_C07", "MC_C07_thorough.cfg", tlc_workers=12, timeout=3400)
 
 
-PROPS = {"C04": c04, "C06": c06, "C07": c07, "C05": c05, "C18": c18}
+def c08(ck):
+    ck.rule = ("208 callers (17 invocation forms of include/render x {plain, inside a for loop, on a dead path} x 2 preambles, "
+               "x 2 caller data maps) x every body of partial p that is a sequence of at most N statements over a 12-statement "
+               "alphabet (reads, assign, increment, break, continue, cycle, nested include/render of p2, forloop.index), with "
+               "q.liquid, a missing and a broken partial present; every scenario is non-trivial (it reaches a partial tag or "
+               "proves it dead)")
+    ck.assumptions = ["partials compiled eagerly here; C19 replays the same scenarios under all three policies",
+                      "no recursion between partials"]
+    if ck.tier == "quick":
+        ck.replay_stage("body1", "MC_C08", "MC_C08_quick.cfg")
+    else:
+        ck.replay_stage("body2", "MC_C08", "MC_C08_thorough.cfg", tlc_workers=12, timeout=3400)
+
+
+def c19(ck):
+    ck.rule = ("the C08 scenarios (callers x partial bodies x data, with valid, broken, absent and .liquid-suffixed partials, literal "
+               "and dynamic names) run in the model under each of the three store policies; every scenario is replayed on three real "
+               "parsers (EagerCompiler, LazyCompiler, OnDemandCompiler over InMemorySource), 3 renders each, every render compared "
+               "with the specification's result; all scenarios are non-trivial")
+    ck.assumptions = ["sources whose name listing is truthful (InMemorySource)"]
+    if ck.tier == "quick":
+        ck.replay_stage("body1x3policies", "MC_C08", "MC_C19_quick.cfg")
+    else:
+        ck.replay_stage("body2x3policies", "MC_C08", "MC_C19_thorough.cfg", tlc_workers=12, timeout=3400)
+
+
+PROPS = {"C04": c04, "C06": c06, "C07": c07, "C08": c08, "C19": c19, "C05": c05, "C18": c18}
 
 
 def replay_file(prop, path):
